@@ -299,11 +299,15 @@ func cmdCheck(args []string) int {
 		if *tier == "thorough" {
 			pfT = 240 * time.Second
 		}
+		knownList := loadKnown()
 		var pend []*OblResult
 		for _, r := range results {
 			if r.obl.Expect == "unsat" && r.Status != "unsat" && r.Status != "sat" {
 				if _, und := cfg.Undecided[r.Name]; und {
 					continue
+				}
+				if kf := findKnown(knownList, id, r.Name); kf != nil && kf.Status == "known" {
+					continue // a recorded finding: no need to spend the portfolio on it
 				}
 				pend = append(pend, r)
 			}
